@@ -31,7 +31,7 @@ func Available() []byte {
 	return []byte{0x09, 0, 0, 0, 0, 's', 'w', 'a', 't', '4', 0}
 }
 
-var asciiWords = []string{"Swat4 Server", "A-Bomb Nightclub", "VIP Escort", "SWAT 4", "1.1", "TSS", "Barricaded Suspects", "x", "0", "-", "a=b", "\\back\\slash", "tab\there", " "}
+var asciiWords = []string{"mapname", "password", "hostport", "statechanged", "localport", "hostname", "gametype", "numplayers", "Swat4 Server", "A-Bomb Nightclub", "VIP Escort", "SWAT 4", "1.1", "TSS", "Barricaded Suspects", "x", "0", "-", "a=b", "\\back\\slash", "tab\there", " "}
 var utf8Words = []string{"Сервер", "日本語サーバー", "café ☕", "ÿĀ", "\U0001F600 smile", "� repl", "߿ࠀ￿"}
 var markupWords = []string{"[c=FF0000]Red[\\c]", "[b]Bold[\\b] [u]x[\\u]", "[C=00ff00][B]My [i]Server", "[c=ffffff]", "[\\c][\\b]"}
 
@@ -489,6 +489,12 @@ func WireEdgeHistories(rng *rand.Rand) [][]string {
 	plain := RandomReport(rng, id, "10480", "10481", 0)
 	hs = append(hs, JoinOps([][]string{Dg(ip, port, nil), Dg(ip, port, plain.Payload(rng)), Dg(ip, port, nil), Dg(ip, port, Keepalive(id)),
 		{"adv", "256000"}, Dg(ip, port, nil), Dg(ip, port, plain.Payload(rng))}))
+	// the server's lock is held by another writer for a moment when the heartbeat arrives: it waits and is then handled
+	for _, ms := range []int{120, 150, 230} {
+		r := RandomReport(rng, id, "10480", "10481", 0)
+		hs = append(hs, JoinOps([][]string{Dg(ip, port, plain.Payload(rng)), {"hold", ip + ":10480", fmt.Sprint(ms)}, Dg(ip, port, r.Payload(rng)),
+			{"hold", ip + ":10480", fmt.Sprint(ms)}, Dg(ip, port, Keepalive(id))}))
+	}
 	for _, total := range []int{2046, 2047, 2048, 2049, 2050, 3000} {
 		hs = append(hs, JoinOps([][]string{Dg(ip, port, mk(total)), Dg(ip, port, Keepalive(id)), Dg(ip, port, plain.Payload(rng))}))
 	}
